@@ -1,6 +1,7 @@
 \* layout scenarios with the verdict of the model of the code AS FOUND (ManifestDelete without Validate): esc = 1 where it escapes
 CONSTANTS TitleClean = "rooted" LinkPolicy = "skip" DeleteValidates = FALSE MaxFull = 1 MaxCore = 1
   Eps = {"lay"}
+CONSTANT WithVerdict = TRUE
 INIT Init
 NEXT Next
 INVARIANT Emit
